@@ -166,9 +166,23 @@ def run_case(case, ses):
         box = []
         for n, c in cm.iface.items():
             box += [vs[c] <= 64, vs[c] >= -64]
+        sres, spt = scenario_sandwich(ses, name, cm, vs, rows, box, t <= z3.RealVal(str(val - delta)), reported, S + Sdefs)
+        if sres == 'unsat':
+            ses.stats.nontrivial.add(name)
+            return
+        if sres == 'sat':
+            data = dict(spec=spec, point={k: str(v) for k, v in spt.items()}, reported=reported)
+            if replay(data):
+                finding(ses, 'C02:%s:conservative' % name,
+                        'model %s: a robustly feasible point (exact semantic check by z3) has objective %s, better than the '
+                        'reported optimum %r, and is cut off by the compiled program' % (name, spt.get('t'), reported),
+                        data, 'rsv.props.c02:replay')
+                return
+            ses.stats.notes.append('%s: better semantic point found by the scenario loop is accepted by the compiled program '
+                                   '(solver inaccuracy rather than conservatism)' % name)
         res, model = ses.oblige(name + '/no-better-semantic-point', S + Sdefs + box,
                                 [t <= z3.RealVal(str(val - delta))], kind='optimum-sandwich', core=False, twin=True,
-                                timeout_ms=60000, sample=dict(model=name, reported=reported))
+                                timeout_ms=30000, sample=dict(model=name, reported=reported))
         if res == 'sat':
             pt = {n: fval(model, vs[c]) for n, c in cm.iface.items()}
             data = dict(spec=spec, point={k: str(v) for k, v in pt.items()}, reported=reported)
@@ -180,6 +194,114 @@ def run_case(case, ses):
                 raise HarnessError('sandwich counterexample does not reproduce: %s' % name)
         elif res == 'unsat':
             ses.stats.nontrivial.add(name)
+
+
+def exact_member(ses, U, zf, centre, z3):
+    """An exact rational point of U close to the float point zf (pulled towards `centre` until z3 confirms membership of
+    the rational point in the TRUE set - a ground query), or None."""
+    from ..oracle import Z3Env
+    for eta in (Fraction(1, 10 ** 8), Fraction(1, 10 ** 6), Fraction(1, 10 ** 4), Fraction(1, 100)):
+        pt = {}
+        for n in U.names:
+            c = Fraction(centre.get(n, 0)).limit_denominator(10 ** 6)
+            v = Fraction(float(zf[n])).limit_denominator(10 ** 10)
+            pt[n] = c + (1 - eta) * (v - c)
+        e2 = Z3Env({n: z3.RealVal(str(v)) for n, v in pt.items()})
+        cons = U.z3(e2)
+        r, _ = ses.solve(list(cons) + list(e2.defs), 5000, None, 'member')
+        if r == 'sat':
+            return pt
+    return None
+
+
+def scenario_sandwich(ses, name, cm, vs, rows, box, better, reported, Sfull, rounds=8):
+    """Scenario (cutting-plane) relaxation of the semi-infinite semantics for SOC-type / mixed sets:  a robust row holds for
+    ALL z in U, hence at every member of a finite list of exact rational points z_k of U (membership of each point in the TRUE
+    set is confirmed by z3).  S is contained in the polyhedron S_K so obtained; `S_K /\ t <= reported - delta` unsat (QF_LRA,
+    plus the atoms of deterministic rows) proves that no robustly feasible point beats the reported optimum.  The points are
+    chosen numerically (worst realisations at the solver's point and at the models of earlier rounds - Kelley's loop); they
+    only make the relaxation tight, the verdict is z3's over all values of the decisions."""
+    from .c01 import maximise_linear
+    from ..tv import affine_in_z
+    from ..poly import Poly
+    z3 = z3mod()
+    sol = cm.r.m.solution
+    if sol is None or sol.x is None:
+        return 'unknown', None
+    x = np.array(sol.x, dtype=float)
+    assign = {n: float(x[c]) for n, c in cm.iface.items()}
+    env = cm.env(vs)
+    terms, robust = [], []
+    for row in rows:
+        U = row['uset']
+        if row['cons'].is_atom() or not row['robust'] or U.kind == 'poly':
+            terms += hold_terms(row, env, z3)
+        elif U.kind in ('soc', 'mixed'):
+            robust.append(row)
+        else:
+            return 'unknown', None
+    centres, npts = {}, 0
+
+    def centre_of(U):
+        if id(U) not in centres:
+            n = len(U.names)
+            pts = []
+            for i in range(n):
+                for sg in (1.0, -1.0):
+                    a = np.zeros(n)
+                    a[i] = sg
+                    pts.append(maximise_linear(U, a))
+            centres[id(U)] = ({k: float(np.mean([p[k] for p in pts])) for k in U.names}, pts)
+        return centres[id(U)]
+
+    def add_cuts(row, point):
+        nonlocal npts
+        U = row['uset']
+        (p,) = row['cons'].polys()
+        a, _ = affine_in_z(p, U.names)
+        av = np.array([a.get(n, Poly()).evalf(point) for n in U.names])
+        c, base = centre_of(U)
+        cands = [maximise_linear(U, av), maximise_linear(U, -av)] if row['cons'].sense == 'eq' else [maximise_linear(U, av)]
+        if not row.get('_based'):
+            cands += base
+            row['_based'] = True
+        for zf in cands:
+            pt = exact_member(ses, U, zf, c, z3)
+            if pt is None:
+                continue
+            tt = env.p(p.subs(pt))
+            terms.append(tt <= 0 if row['cons'].sense == 'le' else tt == 0)
+            npts += 1
+
+    point = assign
+    res = 'unknown'
+    for rd in range(rounds):
+        for row in robust:
+            add_cuts(row, point)
+        res, model = ses.solve(terms + list(env.defs) + box + [better], 20000, None, name + '/scenario-round%d' % rd)
+        if res != 'sat':
+            break
+        point = {n: float(fval(model, vs[c])) for n, c in cm.iface.items()}
+    for row in robust:
+        row.pop('_based', None)
+    if res == 'sat':
+        # the loop converges to the optimum of S from outside: move the last model towards the solver's (robustly feasible)
+        # point and let z3 check the TRUE semantics at the pinned rational point (ground query) - a real witness of conservatism
+        for lam in (Fraction(1), Fraction(999, 1000), Fraction(99, 100), Fraction(9, 10), Fraction(1, 2)):
+            pt = {n: Fraction(assign[n]).limit_denominator(10 ** 9) + lam * (Fraction(point[n]).limit_denominator(10 ** 9)
+                                                                        - Fraction(assign[n]).limit_denominator(10 ** 9))
+                  for n in cm.iface}
+            pins = [vs[c] == z3.RealVal(str(pt[n])) for n, c in cm.iface.items()]
+            r2, _ = ses.solve(list(Sfull) + pins + [better], 10000, None, name + '/semantic-witness')
+            if r2 == 'sat':
+                return 'sat', pt
+    if res != 'unsat':
+        ses.stats.notes.append('%s: scenario relaxation not tight after %d points (%s)' % (name, npts, res))
+        return 'unknown', None
+    r, _ = ses.oblige(name + '/no-better-point-in-scenario-relaxation(%dpts)' % npts, terms + list(env.defs) + box, [better],
+                      kind='optimum-sandwich-scenarios', core=False, twin=True, timeout_ms=20000,
+                      sample=dict(model=name, reported=reported, scenario_points=npts))
+    return r, None
 
 
 def head_signs(ses, spec, cm, cp, vs, reported):
